@@ -270,6 +270,14 @@ public:
     void garbage_collect() {
         m_buffer.purge_removed();                                                                        // I2: index not rewritten
     }
+    handle_type add_item_after_gc(const osmium::memory::Item& item) {
+        const auto offset = m_buffer.committed();                                                        // I4: position read before the compaction
+        garbage_collect();
+        m_buffer.add_item(item);
+        m_buffer.commit();
+        m_index.push_back(offset);
+        return handle_type{m_index.size()};
+    }
     void remove_item(handle_type handle) {
         auto& offset = get_item_offset_ref(handle);
         auto& item = m_buffer.get<osmium::memory::Item>(offset);
@@ -280,6 +288,7 @@ public:
 
 inline void c15_use_stash(ItemStash& s, const osmium::memory::Item& i) {
     auto h = s.add_item(i);
+    (void)s.add_item_after_gc(i);
     s.remove_item(h);
     s.garbage_collect();
     s.clear();
